@@ -26,6 +26,9 @@ REPLAYS = os.path.join(ROOT, "replays")
 TLA_CP = "/opt/veriftools/tla/tla2tools.jar:/opt/veriftools/tla/CommunityModules-deps.jar"
 
 
+CURRENT_BIN = [HBIN]     # the harness binary in use (swapped for the AddressSanitizer build)
+
+
 class ToolError(Exception):
     pass
 
@@ -46,6 +49,22 @@ def build_harness():
     if r.returncode != 0:
         raise ToolError("harness build failed:\n" + r.stdout[-4000:])
     log("[build] harness built in %.1fs" % (time.time() - t0))
+
+
+ASAN_BIN = os.path.join(HARNESS, "target-asan", "x86_64-unknown-linux-gnu", "debug", "vharness")
+
+
+def build_harness_asan():
+    """The same harness built with AddressSanitizer (nightly toolchain, present offline)."""
+    env = dict(os.environ, CARGO_NET_OFFLINE="true",
+               RUSTFLAGS="-Zsanitizer=address --cfg mini_moka_verif --check-cfg cfg(mini_moka_verif)")
+    t0 = time.time()
+    r = subprocess.run(["cargo", "+nightly", "build", "--offline", "--quiet", "--target", "x86_64-unknown-linux-gnu",
+                        "--target-dir", "target-asan"], cwd=HARNESS, env=env,
+                       stdout=subprocess.PIPE, stderr=subprocess.STDOUT, text=True)
+    if r.returncode != 0:
+        raise ToolError("AddressSanitizer build of the harness failed:\n" + r.stdout[-3000:])
+    log("[build] harness built with AddressSanitizer in %.1fs" % (time.time() - t0))
 
 
 # ---------------------------------------------------------------------------
@@ -171,7 +190,7 @@ def model_check(wd, name, module, constants, invariants, constraints=(), workers
 
 
 def harness(args, timeout=600, check=True):
-    r = subprocess.run([HBIN] + args, stdout=subprocess.PIPE, stderr=subprocess.PIPE, text=True, timeout=timeout)
+    r = subprocess.run([CURRENT_BIN[0]] + args, stdout=subprocess.PIPE, stderr=subprocess.PIPE, text=True, timeout=timeout)
     return r
 
 
